@@ -15,6 +15,7 @@ PROP_MODULES = {
     "C04": ["contracts.c04", "contracts.c05"],
     "C05": ["contracts.c05", "contracts.c05_bounded"],
     "C11": ["contracts.c11", "contracts.c11_bounded", "contracts.c02"],
+    "C19": ["contracts.c19", "contracts.c19_bounded", "contracts.c02", "contracts.c15"],
     "C13": ["contracts.c13"],
     "C14": ["contracts.c14", "contracts.c14_bounded", "contracts.c08"],
     "C07": ["contracts.c07", "contracts.c07_bounded", "contracts.c10"],
